@@ -8,6 +8,9 @@ def main():
     d = os.path.abspath(sys.argv[1])
     checks = sys.argv[2:]
     patch = os.path.join(d, "patch.diff")
+    import time
+    while os.path.exists("/verif/work/PAUSE"):
+        time.sleep(5)
     st = subprocess.run(["git", "-C", "/repo", "status", "--porcelain"], capture_output=True, text=True).stdout.strip()
     if st:
         print("refusing: /repo has uncommitted changes"); return 2
